@@ -43,6 +43,12 @@ CHECKS = {
         "Trusted: int, chr, unquote_to_bytes, utf-16/utf-8 codecs.",
         "DESIGN.md 3/C14",
     ),
+    "C15": (
+        "provenance terms from abstract interpretation (which slices of which groups are combined), group-language containment justifying every quote-stripping slice, regex skeleton membership for the documented call shapes and operand order, language equality for the concat chain / separator",
+        "Decides: replace dialects evaluate x[1:-1].replace(a[1:-1], b[1:-1]) with operands in the dialect's syntactic order; reversal is the reverse of the unquoted literal; concatenation removes exactly quote-spacer-quote with the chain's own spacer; stripped groups really are quoted literals; spans are the whole expression; types end in 'string'. Behaviour on literals containing quote characters is excluded by the statement; bytes.replace is trusted.",
+        "Trusted: bytes.replace, slicing, re.sub.",
+        "DESIGN.md 3/C15",
+    ),
     "C17": (
         "guard truth tables with integer theory (boundary test, MixedCase per-byte test), find-advance loop template, constructor-argument provenance through Node.__init__'s signature",
         "Decides the whole mechanism of keyword.find_all / find_keywords / is_mixed_case: the boundary formula equals the statement's, both search operands are lower-cased, the search starts at 0 and advances by len(keyword) on every path, empty keywords are rejected, type/value/span roles and the MixedCase formula are the documented ones.",
